@@ -29,6 +29,7 @@ var (
 // finding id of the defect found by this check (repaired in 3d680b5); a missing
 // nearby entry of that shape is keyed with it
 const sameIDFinding = "roam-skips-same-id-in-other-collection"
+const smallRadiusFinding = "roam-small-radius-misses-neighbours"
 
 // findings listed by the coordinator's code reading; see notes/C20.md
 const (
@@ -70,7 +71,11 @@ const earthR = 6371000.0
 
 func ff(f float64) string { return strconv.FormatFloat(f, 'f', -1, 64) }
 
-func round8(f float64) float64 { return math.Round(f*1e8) / 1e8 }
+// coordScale: coordinates are rounded to 8 decimals (1 mm) for radii of 100 m
+// and more, to 12 decimals (0.1 um) for small radii. Set per generated case.
+var coordScale = 1e8
+
+func round8(f float64) float64 { return math.Round(f*coordScale) / coordScale }
 
 func haversine(lat1, lon1, lat2, lon2 float64) float64 {
 	p1, p2 := lat1*math.Pi/180, lat2*math.Pi/180
@@ -476,6 +481,15 @@ func genRoam(rt *rapid.T, maxSteps int) RoamCase {
 	cs.SameKey = pct(rt, "same-key") < 55
 	cs.NoDwell = rapid.Bool().Draw(rt, "nodwell")
 	cs.Radius = math.Round(math.Exp(unif(rt, "radius", math.Log(200), math.Log(50000))))
+	coordScale = 1e8
+	smallRadius := pct(rt, "small-radius") < 22
+	if smallRadius {
+		// centimetres to 200 m: the search rectangle of the candidates has to
+		// hold at every scale (regression roam-small-radius-misses-neighbours)
+		cs.Radius = math.Round(math.Exp(unif(rt, "radius-small", math.Log(0.05), math.Log(200)))*1000) / 1000
+		coordScale = 1e12
+	}
+	defer func() { coordScale = 1e8 }()
 	g.radius = cs.Radius
 	cs.Pattern = pick(rt, "pattern", []string{"*", "*", "t*", "t*", "t2", "[tu]1", "u?"})
 	if pct(rt, "match") < 25 {
@@ -566,6 +580,9 @@ func genRoam(rt *rapid.T, maxSteps int) RoamCase {
 			}
 			ratio := pick(rt, "ratio", ratios) * (1 + unif(rt, "ratio-jitter", -0.0004, 0.0004))
 			brg := pick(rt, "bearing", bearings) + unif(rt, "bearing-jitter", -3, 3)
+			if smallRadius && pct(rt, "compass") < 60 {
+				brg = pick(rt, "compass-brg", []float64{90, 270, 0, 180}) // due east / west / north / south
+			}
 			la, lo := destination(a.lat, a.lon, ratio*g.radius, brg)
 			p := pos{round8(la), round8(lo)}
 			if op == "shape" {
@@ -603,8 +620,8 @@ func genRoam(rt *rapid.T, maxSteps int) RoamCase {
 		case "radius":
 			ok := false
 			for _, f := range []float64{pick(rt, "redef-factor", []float64{0.5, 0.8, 1.25, 2}), 1.1, 0.9} {
-				nr := math.Round(g.radius * f)
-				if nr < 100 || nr == g.radius {
+				nr := math.Round(g.radius*f*1000) / 1000
+				if nr < 0.05 || nr == g.radius {
 					continue
 				}
 				ok = true
@@ -1062,6 +1079,8 @@ func compareStep(cs RoamCase, exp []entry, got []rgot, hook, fleet, roamKey stri
 			k := "roam:missing-" + e.Kind
 			if e.Kind == "nearby" && !cs.SameKey && e.NID == e.ID {
 				k = sameIDFinding
+			} else if cs.Radius < 5 {
+				k = smallRadiusFinding // at metre scale only the candidate rectangle can lose a neighbour
 			}
 			return k, fmt.Sprintf("expected entry {%s} (%.3f m, radius %s) was not reported", e.key(), e.Meters, ff(cs.Radius)) + ctx
 		}
@@ -1556,7 +1575,7 @@ func runRoam(t failer, c *ev.Collector, cs RoamCase) (info roamInfo) {
 func TestC20_Roam(t *testing.T) {
 	c := ev.New("C20", "roam", "exploration")
 	t.Cleanup(c.Flush)
-	c.Rule("per case one fence NEARBY fleet [MATCH g] FENCE [NODWELL] ROAM key2 pattern meters (key2 = fleet or another collection; pattern *, prefix glob, class glob or exact id; radius 200 m..50 km log-uniform; anywhere |lat|<=70) installed as channel + webhook (+ live connection with a barrier probe in part of the cases); 4..N steps, each SET moves/creates one point object of either collection to a position constructed from an existing object: distance d/r in {0.05,0.3,0.6,0.9,0.999,1.001,1.1,1.2,1.3,1.396,1.45,2.5} (jittered 4e-4) at bearing k*45 deg +-3 (45/135/225/315 with 1<d/r<1.41 = inside the search rectangle but outside the circle), occasionally DEL, and ~20% re-SETs of a fleet object at its exact current coordinates (same text, trailing zeros or exponent spelling; optionally with FIELD or EX), half of them right after a roam-collection object was moved into/out of its radius; in 60% of the cases 2-5 objects are SET before the fence is created (collections exist at creation time); ~9% of the steps remove a whole collection (fleet or the roam collection) by DROP, PDEL * or DEL down to the last object (rarely followed by a single SET EX 0.05 that expires) and re-populate it; 9% of the steps store an extended object (BOUNDS rectangle, Polygon triangle or diagonal LineString; half height 0.001..12 r, aspect 0.2/1/5; ids matching and not matching the pattern) whose box CENTRE sits at a constructed d/r - distances are measured to the centre of an object's bounding box; in non-live cases 6% of the steps re-define the roaming channel and webhook under their names (identical, other radius with all pair margins re-checked, other pattern, NODWELL toggled), the model switching at the acknowledgement; 9% of the cases with pattern * or t* are crowd cases: 1,2,3,7,8,9,10,12,16,17,20,24,32,33,48,64 or 70 neighbours are placed uniformly in a disc of 0.7..1.7 r in the roam collection before the fence exists, then fleet objects hop around inside the disc (many neighbours dwell, enter and leave in one step) and crowd members move; every position keeps |d/r-1|>=1e-4 to every other object. Oracle: own haversine over the model's positions: nearby = other pattern-matching objects of key2 with d(new)<=r (minus, under NODWELL, those with d(old)<=r), faraway = d(old)<=r and d(new)>r, one message per entry, nothing else, meters = floor(d*1000)/1000 within 1e-3+1e-9 d; compared per step (a PUBLISH sentinel after every write delimits the channel stream). Non-trivial: a step whose new position has >=1 pattern-matching neighbour in the corner region or that yields >=2 entries, or a re-SET in place that yields >=1 entry, or a step with >=1 entry after a re-definition or while extended objects are stored, or a step with >=1 entry after the roam collection was removed and re-created under a fence that was created on an existing collection; distinct by (pattern, same/other key, NODWELL, radius, construction, counts).")
+	c.Rule("per case one fence NEARBY fleet [MATCH g] FENCE [NODWELL] ROAM key2 pattern meters (key2 = fleet or another collection; pattern *, prefix glob, class glob or exact id; radius 200 m..50 km log-uniform, in 22% of the cases 0.05 m..200 m log-uniform with coordinates to 12 decimals and 60% of the placements due east/west/north/south; anywhere |lat|<=70) installed as channel + webhook (+ live connection with a barrier probe in part of the cases); 4..N steps, each SET moves/creates one point object of either collection to a position constructed from an existing object: distance d/r in {0.05,0.3,0.6,0.9,0.999,1.001,1.1,1.2,1.3,1.396,1.45,2.5} (jittered 4e-4) at bearing k*45 deg +-3 (45/135/225/315 with 1<d/r<1.41 = inside the search rectangle but outside the circle), occasionally DEL, and ~20% re-SETs of a fleet object at its exact current coordinates (same text, trailing zeros or exponent spelling; optionally with FIELD or EX), half of them right after a roam-collection object was moved into/out of its radius; in 60% of the cases 2-5 objects are SET before the fence is created (collections exist at creation time); ~9% of the steps remove a whole collection (fleet or the roam collection) by DROP, PDEL * or DEL down to the last object (rarely followed by a single SET EX 0.05 that expires) and re-populate it; 9% of the steps store an extended object (BOUNDS rectangle, Polygon triangle or diagonal LineString; half height 0.001..12 r, aspect 0.2/1/5; ids matching and not matching the pattern) whose box CENTRE sits at a constructed d/r - distances are measured to the centre of an object's bounding box; in non-live cases 6% of the steps re-define the roaming channel and webhook under their names (identical, other radius with all pair margins re-checked, other pattern, NODWELL toggled), the model switching at the acknowledgement; 9% of the cases with pattern * or t* are crowd cases: 1,2,3,7,8,9,10,12,16,17,20,24,32,33,48,64 or 70 neighbours are placed uniformly in a disc of 0.7..1.7 r in the roam collection before the fence exists, then fleet objects hop around inside the disc (many neighbours dwell, enter and leave in one step) and crowd members move; every position keeps |d/r-1|>=1e-4 to every other object. Oracle: own haversine over the model's positions: nearby = other pattern-matching objects of key2 with d(new)<=r (minus, under NODWELL, those with d(old)<=r), faraway = d(old)<=r and d(new)>r, one message per entry, nothing else, meters = floor(d*1000)/1000 within 1e-3+1e-9 d; compared per step (a PUBLISH sentinel after every write delimits the channel stream). Non-trivial: a step whose new position has >=1 pattern-matching neighbour in the corner region or that yields >=2 entries, or a re-SET in place that yields >=1 entry, or a step with >=1 entry after a re-definition or while extended objects are stored, or a step with >=1 entry after the roam collection was removed and re-created under a fence that was created on an existing collection; distinct by (pattern, same/other key, NODWELL, radius, construction, counts).")
 	c.Assume("message order within a step (nearby before faraway, by distance) is not part of the property: labelled, not judged; FSET/EXPIRE on a roam fence are out of scope")
 	maxSteps := ev.Pick(16, 24)
 	ev.Rapid("roam", ev.Pick(2500, 12000))
@@ -1575,6 +1594,14 @@ func TestC20_Roam(t *testing.T) {
 		c.LabelN("fleet-set-steps", info.steps)
 		c.LabelN("expected-entries", info.entries)
 		c.LabelN("corner-neighbours", info.cornerNB)
+		switch {
+		case cs.Radius < 0.285:
+			c.Label("radius<0.285m")
+		case cs.Radius < 5:
+			c.Label("radius<5m")
+		case cs.Radius < 200:
+			c.Label("radius<200m")
+		}
 		c.Label("pattern:" + cs.Pattern)
 		c.Label(fmt.Sprintf("samekey:%v", cs.SameKey))
 		c.Label(fmt.Sprintf("nodwell:%v", cs.NoDwell))
@@ -1669,6 +1696,30 @@ probes:
 		}
 		c.Case()
 		runRegress(t, c, cs, findLiveLate)
+	}
+	// (5) roam-small-radius-misses-neighbours: radius 0.25 m with a neighbour
+	// 0.10 m due east (the candidate rectangle collapsed to the centre below
+	// ~0.285 m) and radius 1.5176 m with a neighbour 1.5161 m due east at
+	// latitude -54.25 (rectangle 0.4% too narrow east-west); channel, webhook
+	// and live connection
+	coordScale = 1e12
+	defer func() { coordScale = 1e8 }()
+	for _, p := range []struct{ r, lat, lon, d float64 }{{0.25, 0, 10, 0.10}, {1.5176, -54.25, 10, 1.5161}, {0.25, 47, -122, 0.2}, {3, 60, 25, 2.997}} {
+		for _, brg := range []float64{90, 270} {
+			cs := RoamCase{SameKey: true, Pattern: "*", Radius: p.r, Live: true}
+			la, lo := destination(p.lat, p.lon, p.d, brg)
+			barrier := []RStep{{Op: "set", Col: 0, ID: probeID, Lat: -40, Lon: -100, Note: "barrier probe"},
+				{Op: "del", Col: 0, ID: probeID, Sync: true, Note: "barrier"}}
+			cs.Steps = append(cs.Steps, RStep{Op: "set", Col: 0, ID: "a", Lat: p.lat, Lon: p.lon, Note: "first object"})
+			cs.Steps = append(cs.Steps, barrier...)
+			cs.Steps = append(cs.Steps, RStep{Op: "set", Col: 0, ID: "b", Lat: round8(la), Lon: round8(lo), Note: fmt.Sprintf("%.4f m from a at bearing %.0f, radius %s", p.d, brg, ff(p.r))})
+			cs.Steps = append(cs.Steps, barrier...)
+			c.Case()
+			c.NonTrivial(fmt.Sprintf("small|%v|%v", p, brg))
+			if !runRegress(t, c, cs, smallRadiusFinding) {
+				return
+			}
+		}
 	}
 }
 
